@@ -8,17 +8,7 @@ in `internal/wire/analyze.go:verifyAcyclic`, tied to the code by the unit-tier c
 namespace WireP.C07
 open WireV
 
-/-- a non-empty path in the graph the detector walks -/
-inductive Path (succ : Ty → List Ty) : Ty → Ty → Prop
-  | single {a b : Ty} : b ∈ succ a → Path succ a b
-  | cons {a b c : Ty} : b ∈ succ a → Path succ b c → Path succ a c
-
-/-- the provider graph has a cycle -/
-def Cyclic (succ : Ty → List Ty) : Prop := ∃ a, Path succ a a
-
-/-- what a cycle diagnostic prints is a closed walk: first = last, consecutive elements are edges -/
-def IsCycleTrail (succ : Ty → List Ty) (tr : List Ty) : Prop :=
-  2 ≤ tr.length ∧ tr.head? = tr.getLast? ∧ List.IsChain (fun x y => y ∈ succ x) tr
+-- `Path`, `Cyclic`, `IsCycleTrail` (namespace `WireP.C07`) are defined in `WireP/Lemmas/AcyclicDefs.lean`
 
 /-- **Termination, linear bound.**  For every provider map and every root list the detector
     empties its stack within `acFuel pm roots = |roots| + Σ_keys outdeg` steps: the running time
